@@ -158,6 +158,11 @@ func cmdCheck(propFile, tier string) int {
 			writeEvidence(root, &pf, tier, seed, nil, nil, nil, violations, time.Since(t0), nil, nil)
 			return 1
 		}
+		for _, f := range findings {
+			if f.Kind == "finding" && f.Obligation != "" {
+				w.Findings[f.Obligation] = f
+			}
+		}
 		for _, k := range pf.AutoInline {
 			w.autoInline[expandKey(k)] = true
 		}
